@@ -1,0 +1,126 @@
+// Copyright © 2022-2026 Obol Labs Inc. Licensed under the terms of a Business Source License 1.1
+
+//go:build verif
+
+package pedersen
+
+import (
+	"context"
+	"time"
+
+	"github.com/drand/kyber"
+	kdkg "github.com/drand/kyber/share/dkg"
+	"github.com/libp2p/go-libp2p/core/host"
+	"github.com/libp2p/go-libp2p/core/peer"
+
+	"github.com/obolnetwork/charon/app/log"
+	"github.com/obolnetwork/charon/dkg/share"
+	"github.com/obolnetwork/charon/p2p"
+	"github.com/obolnetwork/charon/tbls"
+)
+
+// This file is only compiled with the "verif" build tag. It exports the unexported node-side glue
+// of this package (dkg.go, reshare.go, utils.go) to the verification harness under Verif* names.
+// It adds no behaviour to any existing function.
+
+// VerifNewBoard returns a Board that has only what makeNodes, processKey and broadcastNoneKey use:
+// the configuration, the two public-key exchange channels (capacity chanCap instead of
+// config.Nodes(), so that a caller can queue duplicate and unexpected deliveries ahead of the
+// reader), a sender and the host. No protocol handlers are registered and there is no broadcast
+// component: BroadcastNodePubKey / BroadcastNodePubKeyWithShares must not be called on it.
+func VerifNewBoard(ctx context.Context, h host.Host, config *Config, chanCap int) *Board {
+	return &Board{
+		logCtx:            log.WithTopic(ctx, "pedersen"),
+		host:              h,
+		sender:            new(p2p.Sender),
+		config:            config,
+		dedup:             newBundleDedup(),
+		nodePubKeysCh:     make(chan NodePubKeys, chanCap),
+		valPubKeySharesCh: make(chan ValidatorPubKeyShare, chanCap),
+	}
+}
+
+// VerifNodePubKeysCh is the channel behind IncomingNodePubKeys (what the bcast handler and the
+// node's own broadcast write to).
+func (b *Board) VerifNodePubKeysCh() chan NodePubKeys { return b.nodePubKeysCh }
+
+// VerifValPubKeySharesCh is the channel behind IncomingValidatorPubKeyShares.
+func (b *Board) VerifValPubKeySharesCh() chan ValidatorPubKeyShare { return b.valPubKeySharesCh }
+
+// VerifMakeNodes is makeNodes.
+func VerifMakeNodes(ctx context.Context, config *Config, board *Board) ([]kdkg.Node, map[int][][]byte, error) {
+	return makeNodes(ctx, config, board)
+}
+
+// VerifProcessKey is processKey.
+func VerifProcessKey(ctx context.Context, config *Config, board *Board, key *kdkg.DistKeyShare) (share.Share, error) {
+	return processKey(ctx, config, board, key)
+}
+
+// VerifBroadcastNoneKey is broadcastNoneKey.
+func VerifBroadcastNoneKey(ctx context.Context, config *Config, board *Board) error {
+	return broadcastNoneKey(ctx, config, board)
+}
+
+// VerifReadBoardNodePubKeys is readBoardChannel instantiated as makeNodes does.
+func VerifReadBoardNodePubKeys(ctx context.Context, ch <-chan NodePubKeys, expected []peer.ID, timeout time.Duration) ([]NodePubKeys, error) {
+	return readBoardChannel(ctx, ch, expected, func(pk NodePubKeys) peer.ID { return pk.PeerID }, timeout)
+}
+
+// VerifReadBoardValPubKeyShares is readBoardChannel instantiated as processKey and broadcastNoneKey do.
+func VerifReadBoardValPubKeyShares(ctx context.Context, ch <-chan ValidatorPubKeyShare, expected []peer.ID, timeout time.Duration) ([]ValidatorPubKeyShare, error) {
+	return readBoardChannel(ctx, ch, expected, func(s ValidatorPubKeyShare) peer.ID { return s.PeerID }, timeout)
+}
+
+// VerifCollectTimeout is Config.collectTimeout.
+func VerifCollectTimeout(c Config) time.Duration { return c.collectTimeout() }
+
+// VerifValidateThreshold is validateThreshold.
+func VerifValidateThreshold(nodeCount, threshold int) error {
+	return validateThreshold(nodeCount, threshold)
+}
+
+// VerifRestoreCommitsFromPubShares is restoreCommitsFromPubShares.
+func VerifRestoreCommitsFromPubShares(pubSharesBytes map[int][]byte, threshold int, expectedValidatorPubKey *tbls.PublicKey) ([]kyber.Point, error) {
+	return restoreCommitsFromPubShares(pubSharesBytes, threshold, expectedValidatorPubKey)
+}
+
+// VerifRestoreDistKeyShare is restoreDistKeyShare.
+func VerifRestoreDistKeyShare(keyShare share.Share, threshold int, nodeIdx int) (*kdkg.DistKeyShare, error) {
+	return restoreDistKeyShare(keyShare, threshold, nodeIdx)
+}
+
+// VerifRestoreCommits is restoreCommits.
+func VerifRestoreCommits(publicShares map[int][][]byte, shareNum, threshold int, expectedValidatorPubKey *tbls.PublicKey) ([]kyber.Point, error) {
+	return restoreCommits(publicShares, shareNum, threshold, expectedValidatorPubKey)
+}
+
+// VerifGenerateNonce is generateNonce.
+func VerifGenerateNonce(nodes []kdkg.Node, iteration int) ([]byte, error) {
+	return generateNonce(nodes, iteration)
+}
+
+// VerifValidatePubKeyShares is validatePubKeyShares.
+func VerifValidatePubKeyShares(pubKeyShares map[int][][]byte, totalShares int) error {
+	return validatePubKeyShares(pubKeyShares, totalShares)
+}
+
+// VerifValidateReshareNodeCounts is validateReshareNodeCounts.
+func VerifValidateReshareNodeCounts(oldNodesCount, newNodesCount, oldThreshold int, reshare *ReshareConfig) error {
+	return validateReshareNodeCounts(oldNodesCount, newNodesCount, oldThreshold, reshare)
+}
+
+// VerifKeyShareToBLS is keyShareToBLS.
+func VerifKeyShareToBLS(result *kdkg.DistKeyShare) (tbls.PrivateKey, tbls.PublicKey, error) {
+	return keyShareToBLS(result)
+}
+
+// VerifDistKeyShareToValidatorPubKey is distKeyShareToValidatorPubKey.
+func VerifDistKeyShareToValidatorPubKey(result *kdkg.DistKeyShare, suite kdkg.Suite) (tbls.PublicKey, error) {
+	return distKeyShareToValidatorPubKey(result, suite)
+}
+
+// VerifMissingPeerNames is missingPeerNames.
+func VerifMissingPeerNames(expected []peer.ID, seen map[peer.ID]struct{}) []string {
+	return missingPeerNames(expected, seen)
+}
